@@ -18,6 +18,17 @@ CLAIMED = {
         design="3/C06"),
 }
 
+CLAIMED["C26"] = dict(
+    technique="Coq proof: vm_compute over the cell table regenerated from ufl.cell (finite, exhaustive) + order theorems for all (tdim, name) keys; exhaustive correspondence of every accessor",
+    text="The table of named cells and every accessor result (num_sub_entities, sub_entities, facets/ridges/peaks, vertices/edges/faces, pairwise <) are read from the live module on every run; Coq proves over the regenerated table that every cell has Euler characteristic 1, that each listed sub-entity is a table cell of the right dimension, that facets/ridges/peaks are the entities of dimension tdim-1/2/3, that the implementation's tensor-product counts agree with the product f-vector (all products of <=3 named cells, tdim<=3), and - for ALL (tdim, name) keys, not only the ten - that the cell order is a strict total order. The finite parts are exhaustive.",
+    note="Trusted: Coq kernel + vm_compute; the Python extraction of table/accessor values; Python str order modelled as code-point lexicographic order; product f-vector = convolution (definition). Cross-class comparison (Cell vs TensorProductCell by class name) not modelled.",
+    design="3/C26")
+CLAIMED["C25"] = dict(
+    technique="Coq proof: order theorems for all directional order lists + vm_compute over the regenerated space table and an exhaustive grid; faithful model of total_ordering/reflected dispatch validated exhaustively",
+    text="Props/C25_model.v models sobolevspace.py faithfully (including functools.total_ordering's derived operators and CPython's reflected-operand priority). Proved for ALL order lists: the specification order on directional spaces is a strict partial order and the implementation's < agrees with it on comparable pairs. Proved by vm_compute over the table regenerated from /repo and over an exhaustive grid (12 predefined + all directional spaces with <=2/3 directions over {0,1,2,3,inf}): irreflexivity, transitivity, <= = (< or ==), membership consistency, declared parents = mathematical proper supersets, and every operator returns the mathematically right answer outside two known-finding classes, which are proved refuted with witnesses (4 known findings). Every operator on every grid pair is compared with the real classes on every run.",
+    note="Trusted: Coq kernel + vm_compute; the model of Python dispatch (validated exhaustively on the grid each run); the subspace specification sub_spec and the inclusion table MATH_COVERS; directional orders outside {0,1,2,3,inf} not modelled.",
+    design="3/C25")
+
 REASON_PENDING = "model not finished in this revision; not claimed rather than claimed with a non-proof check"
 
 
